@@ -39,6 +39,9 @@ ROOTS = [
     ("p1-float-2d-rational", ([0.0, 0.0, 0.25, 1.0, 1.0], [(0.0, 0.0), (1.0, 2.0), (3.0, 1.0)], [1.0, 2.0, 1.0]), None),
     ("p2-refined", ([Fr(-1)] * 3 + [Fr(0), Fr(1)] + [Fr(2)] * 3, [Fr(1), Fr(1, 2), Fr(1, 2), Fr(7, 4), Fr(4)], None), None),
     ("p2-elevated-line-2d", ([Fr(0)] * 3 + [Fr(1)] * 3, [(Fr(0), Fr(0)), (Fr(1), Fr(1, 2)), (Fr(2), Fr(1))], None), None),
+    # very uneven weights: the projected denominator of a forced knot removal changes sign (the request is refused)
+    ("p2-rational-uneven", ([Fr(0)] * 3 + [Fr(1, 3), Fr(2, 3)] + [Fr(1)] * 3, [Fr(2), Fr(-3), Fr(5), Fr(-7), Fr(11)],
+                            [Fr(1), Fr(1, 50), Fr(1, 50), Fr(1, 50), Fr(1)]), None),
     ("alias-same-knotvector", ([Fr(-1), Fr(-1), Fr(1, 3), Fr(2), Fr(2)], [Fr(2), Fr(-3), Fr(5)], None), "shared"),
     ("alias-copy", ([Fr(-1)] * 3 + [Fr(2)] * 3, [Fr(2), Fr(-3), Fr(5)], [Fr(1), Fr(2), Fr(1)]), "copy"),
     # two curves built from the same KnotVector object AND the same numpy array of points and list of weights
